@@ -24,7 +24,7 @@ def run(R):
     if not ok:
         return R.finish()
     if not R.quick:
-        R.coqchk("Face", ["Face.LpProofs"])
+        R.coqchk("Face", ["Face.LpTheorems", "Face.LpTotal"])
     nperm = 260 if R.quick else 6000
     res = F.lp_trace(R, test_exe, runner, nperm, 0, "quick" if R.quick else "full", [os.path.join(vlib.VERIF, "corpus", "C10")], "c10",
                      timeout=1500 if R.quick else 2400)
